@@ -119,6 +119,14 @@ NotesOk(rec, n) ==
   /\ \A i \in DOMAIN rec : rec[i] \in DOMAIN n.may
   /\ \A t \in DOMAIN n.may : IF t \in DOMAIN n.must THEN cnt(t) = n.may[t] ELSE cnt(t) \in {0, n.may[t]}
 
+\* several continues in one call (evaluate_function): the bags add up; each watcher is told between must and may times
+BagSum(a, b) == [t \in (DOMAIN a) \cup (DOMAIN b) |-> (IF t \in DOMAIN a THEN a[t] ELSE 0) + (IF t \in DOMAIN b THEN b[t] ELSE 0)]
+NotesSum(n1, n2) == [must |-> BagSum(n1.must, n2.must), may |-> BagSum(n1.may, n2.may)]
+NotesWithin(rec, n) ==
+  LET cnt(t) == Cardinality({i \in DOMAIN rec : rec[i] = t}) IN
+  /\ \A i \in DOMAIN rec : rec[i] \in DOMAIN n.may
+  /\ \A t \in DOMAIN n.may : cnt(t) <= n.may[t] /\ (t \in DOMAIN n.must => cnt(t) >= n.must[t])
+
 \* ---------------------------------------------------------------- evaluate_function
 \* The host runs a function of the story: a frame of its own kind is pushed on the current thread, the output so far is
 \* set aside, the function is continued line by line until it cannot continue, the lines are the text result, the
